@@ -219,6 +219,9 @@ def advanceBehind (m : Int) : List (Src α) → Option (List (Src α))
       else (advanceBehind m ss).map (s :: ·)
     | none => (advanceBehind m ss).map (s :: ·)     -- not reached: all slots are filled here
 
+/-- join_multiple:114-118 for one input: `lastKeys[i] = nextBuffer[i]; nextBuffer[i] = nil`. -/
+def takeBuf (s : Src α) : Src α := { s with last := s.buf, buf := none }
+
 /-- join_multiple:61-144, the `for` loop of `emitJoin`. Every round that does not return pulls at least one element. -/
 def innerLoop : Nat → List (Src α) → Step (NState α) (List α)
   | 0, _ => .err .fuel
@@ -235,7 +238,7 @@ def innerLoop : Nat → List (Src α) → Step (NState α) (List α)
           if (headKeys key ss).all (fun k => k == m) then       -- :103-109
             -- :111-123 collect the values, lastKeys[i] = nextBuffer[i], clear the slots
             .row (ss.filterMap (fun s => s.buf))
-              { inited := true, lastLeftKey := none, srcs := ss.map (fun s => { s with last := s.buf, buf := none }) }
+              { inited := true, lastLeftKey := none, srcs := ss.map takeBuf }
           else
             match advanceBehind key m ss with                   -- :126-143
             | none => .eof
